@@ -675,6 +675,8 @@ func (vc *VC) maybeDispatch(key string, sig *types.Signature) {
 	}
 	isort := vc.ss.sortOf(ifaceT)
 	name := key[strings.LastIndex(key, ".")+1:]
+	// dispatching over the implementers presumes the closed world
+	vc.closedWorld(Term{"nil." + string(isort), isort, ifaceT}, ifaceT)
 	for _, T := range vc.w.implementers(iface, typeKey(ifaceT)) {
 		n, ok := derefNamed(T)
 		if !ok {
